@@ -271,6 +271,85 @@ theorem C25_gram_other_raises (v : Version) (n : Nat) (hn : inTuple n gramTransi
     cases v <;> simp [classify, gramRecvLadder, udpRecvLadder, acceptLadder, ExcClass.isOs, hn, hb]
   exact ⟨by simp [effect, h1], by simp [effect, h2]⟩
 
+/-! ## … through every transmit entry point of the stack, nothing is lost -/
+
+/-- every `sendto` answer in the script is "sent" or a transient destination error (loss errno) -/
+def TransientScript (script : List (Option Err)) : Prop :=
+  ∀ a ∈ script, a = none ∨ ∃ n, a = some ⟨.osError, n⟩ ∧ n ∈ lossErrnos
+
+theorem gramSend_retry {n : Nat} (hl : n ∈ lossErrnos) (v : Version) :
+    classify v .gramSend ⟨.osError, n⟩ = .retry := by
+  have ht := loss_sub_gramTransient n hl
+  simp [classify, gramSendLadder, udpSendLadder, ExcClass.isOs, ht]
+
+theorem gramOne_transient (v : Version) (p : Pkt) (script : List (Option Err)) (sent laters : List Pkt)
+    (bl : List Nat) (hs : TransientScript script) :
+    ∃ sent' laters' bl' script', gramOne v p script sent laters bl = some (sent', laters', bl', script') ∧
+      TransientScript script' ∧ (sent' ++ laters').Perm (sent ++ laters ++ [p]) := by
+  unfold gramOne
+  split
+  · exact ⟨_, _, _, _, rfl, hs, by rw [List.append_assoc]⟩
+  · have htail : TransientScript script.tail := fun a ha => hs a (List.mem_of_mem_tail ha)
+    cases hsc : script with
+    | nil =>
+      refine ⟨_, _, _, _, rfl, by simpa [hsc] using htail, ?_⟩
+      simp only [List.append_assoc]
+      exact List.Perm.append_left sent List.perm_append_comm
+    | cons a t =>
+      have ha := hs a (by rw [hsc]; exact List.mem_cons_self)
+      have htail' : TransientScript t := by rw [hsc] at htail; exact htail
+      rcases ha with rfl | ⟨n, rfl, hn⟩
+      · refine ⟨_, _, _, _, rfl, htail', ?_⟩
+        simp only [List.headD_cons, List.append_assoc]
+        exact List.Perm.append_left sent List.perm_append_comm
+      · simp only [List.headD_cons, gramSend_retry hn v, List.tail_cons]
+        exact ⟨_, _, _, _, rfl, htail', by rw [List.append_assoc]⟩
+
+theorem gramLoop_transient (v : Version) (q : List Pkt) (script : List (Option Err)) (sent laters : List Pkt)
+    (bl : List Nat) (hs : TransientScript script) :
+    ∃ sent' queue', gramLoop v q script sent laters bl = .ok sent' queue' ∧
+      (sent' ++ queue').Perm (sent ++ laters ++ q) := by
+  induction q generalizing script sent laters bl with
+  | nil => exact ⟨sent, laters, rfl, by simp⟩
+  | cons p rest ih =>
+    obtain ⟨s1, l1, b1, sc1, h1, hs1, hp1⟩ := gramOne_transient v p script sent laters bl hs
+    obtain ⟨s2, q2, h2, hp2⟩ := ih sc1 s1 l1 b1 hs1
+    refine ⟨s2, q2, by simp only [gramLoop, h1]; exact h2, ?_⟩
+    refine hp2.trans ?_
+    have : (s1 ++ l1 ++ rest).Perm (sent ++ laters ++ [p] ++ rest) := List.Perm.append_right rest hp1
+    simpa [List.append_assoc] using this
+
+/-- **C25, datagram clause at every service entry point.** Whatever entry point drives the transmit
+side (`serviceTxPkts`, `serviceTxPktsOnce`, `serviceAllTx`, `serviceAllTxOnce`, `serviceAll`), whatever
+the queue, if every `sendto` either succeeds or fails with a transient destination error then nothing
+is raised and every queued packet has either been sent or is still queued — none lost, none duplicated. -/
+theorem C25_gram_service_never_loses (v : Version) (entry : GramEntry) (q : List Pkt)
+    (script : List (Option Err)) (hs : TransientScript script) :
+    ∃ sent queue, gramService v entry q script = .ok sent queue ∧ (sent ++ queue).Perm q := by
+  have hloop := gramLoop_transient v q script [] [] [] hs
+  have honce : ∃ sent queue, gramOnce v q script = .ok sent queue ∧ (sent ++ queue).Perm q := by
+    unfold gramOnce
+    cases q with
+    | nil => exact ⟨[], [], rfl, List.Perm.refl _⟩
+    | cons p rest =>
+      obtain ⟨s1, l1, b1, sc1, h1, _, hp1⟩ := gramOne_transient v p script [] [] [] hs
+      refine ⟨s1, rest ++ l1, by simp only [h1], ?_⟩
+      have hp1' : (s1 ++ l1).Perm [p] := by simpa using hp1
+      have : (s1 ++ (rest ++ l1)).Perm ((s1 ++ l1) ++ rest) := by
+        rw [List.append_assoc]; exact List.Perm.append_left s1 List.perm_append_comm
+      exact this.trans (by simpa using List.Perm.append_right rest hp1')
+  cases entry <;> first
+    | (simpa [gramService] using hloop)
+    | (simpa [gramService] using honce)
+
+/-- non-vacuity: three packets to two destinations, the first `sendto` is refused; one-at-a-time and
+whole-queue entry points both keep packet 1 -/
+example :
+    gramService .fixed2 .allTxOnce [(1, 7), (2, 8), (3, 7)] [some ⟨.osError, ECONNREFUSED⟩]
+      = .ok [] [(2, 8), (3, 7), (1, 7)] ∧
+    gramService .fixed2 .all [(1, 7), (2, 8), (3, 7)] [some ⟨.osError, ECONNREFUSED⟩]
+      = .ok [(2, 8)] [(1, 7), (3, 7)] := by decide
+
 /-! ## the code as found (what the two patches change) -/
 
 /-- D26 as found: `ssl.SSLEOFError` sits in the tuple as a class, `ex.args[0]` is the number 8, so a
